@@ -242,7 +242,12 @@ struct FlatWorld
         // replacement of child x of container c by entity nw; returns false when the call is outside the claim
         auto replaceOne = [&](int c, int x, int nw) -> bool {
             if (nw == x) { unchanged("true"); unchanged("false"); situation += "+replacement-is-target"; return true; }
-            if (s.parent[nw] == c) { situation += "+replacement-already-in-this-container"; return false; }
+            // a replacement that is a sibling of x moves into x's slot; every other child keeps its relative order (exact)
+            bool sibling = s.parent[nw] == c;
+            if (sibling) {
+                auto &l = s.lists[c];
+                situation += (std::find(l.begin(), l.end(), nw) < std::find(l.begin(), l.end(), x)) ? "+replacement-is-earlier-sibling" : "+replacement-is-later-sibling";
+            }
             FState t = s;
             detach(t, nw);
             auto it = std::find(t.lists[c].begin(), t.lists[c].end(), x);
@@ -251,6 +256,7 @@ struct FlatWorld
             t.parent[nw] = c;
             settle(t);
             al.push_back({t, "true"});
+            if (sibling) return true;
             if (s.parent[nw] >= 0) { unchanged("false"); situation += "+replacement-has-other-parent"; }
             else situation += "+replacement-parentless";
             return true;
